@@ -5,7 +5,7 @@
     unwound, leaving the raw parts and the shared length as they are at that moment;
     the world is dropped afterwards.  Proved safe: dropping a world, overwriting a
     component (Entry::add on a present component, writes through &mut views, resource
-    writes).  Refuted with witnesses (findings F8a, F8b): remove and clear.
+    writes), clear (finding F8b, repaired).  Refuted with a witness (finding F8a): remove.
     PARTIAL: clone_from (finding F8c), clone, serialization, equality, Debug, the shape
     changes of Entry::add/remove and system bodies have no fault model here; they are
     judged by fault injection on the real code (every callback kind, every position). *)
@@ -55,16 +55,29 @@ Proof.
 Qed.
 Print Assumptions C17_remove_refuted.
 
-(** Finding F8b (class K17b): a panic in a Drop during clear. *)
-Theorem C17_clear_refuted :
+(** A panic in any Drop during [clear] (World::clear, and the clearing of a destination-only archetype by
+    clone_from): the archetype is left empty, the values not dropped yet are leaked, nothing is dropped
+    twice then or when the world is dropped.  This is finding F8b REPAIRED: the shared length is set
+    before the components are dropped, which is read off the source ([fact_clear_sets_length_first]). *)
+Theorem C17_clear : forall a f f', Clean a ->
+  let '(a', evs, _) := p_clear a f in
+  pa_len a' = 0 /\ double_drops evs = [] /\ double_drops (fst (p_drop_arch a' f')) = [].
+Proof. exact clear_fault_safe_src. Qed.
+Check (C17_clear : forall a f f', Clean a ->
+  let '(a', evs, _) := p_clear a f in
+  pa_len a' = 0 /\ double_drops evs = [] /\ double_drops (fst (p_drop_arch a' f')) = []).
+Print Assumptions C17_clear.
+
+(** ... as it was before the repair (length written last): the emptied column is dropped again. *)
+Theorem C17_clear_F8b_before_the_repair :
   exists a k, Clean a /\
-    let '(a', _, unwound) := p_clear a (Some k) in
+    let '(a', _, unwound) := p_clear_gen false a (Some k) in
     unwound = true /\ double_drops (fst (p_drop_arch a' None)) <> [].
 Proof.
   exists w_arch, 1. split.
   - split; [reflexivity|]. intros col [<-|[<-|[]]] r Hr; cbn in Hr;
       destruct r as [|[|[|r]]]; try lia; cbn; eauto.
-  - pose proof clear_fault_double_drop as H. destruct (p_clear w_arch (Some 1)) as [[a' e] u].
+  - pose proof clear_fault_double_drop as H. destruct (p_clear_gen false w_arch (Some 1)) as [[a' e] u].
     destruct H as [H1 H2]. split; [exact H1|]. rewrite H2. discriminate.
 Qed.
-Print Assumptions C17_clear_refuted.
+Print Assumptions C17_clear_F8b_before_the_repair.
